@@ -59,7 +59,8 @@ Clauses(r) ==
             <<"ReproducibleAfterSampleCache", r.reproaftercache>>,
             <<"SeedMatters", r.seedmatters>> >>
 
-SupportConformant(r) == r.hooked /\ r.k >= 0 /\ (r.atfloor \/ r.fstop) /\ (r.k = 0 \/ r.fprev)
+(* since D58: x_max is the grid value tried before the first one whose density reaches the threshold  *)
+SupportConformant(r) == r.hooked /\ r.k >= 0 /\ (r.atfloor \/ (r.k = 0 /\ r.fat) \/ (~r.fat /\ r.fnext))
 
 Verdict(r) == IF r.exc # "" THEN <<"UnexpectedException">> ELSE Failing(Clauses(r))
 
